@@ -225,6 +225,15 @@ pub fn run(ctx: &mut Ctx) {
                     json!({"all": [{"var": "coll"}, true]}), json!({"some": [{"var": "coll"}, false]}), json!({"none": [{"var": "coll"}, {"var": "nope"}]}),
                     json!({"map": [{"var": "coll"}, {"var": ""}]}), json!({"filter": [{"var": "coll"}, true]}),
                     json!({"reduce": [{"var": "coll"}, {"var": "current"}, 0]}), json!({"merge": [{"var": "coll"}, {"var": "coll"}]}),
+                    json!({"reduce": [{"var": "coll"}, {"merge": [{"var": "accumulator"}, {"var": "current"}]}, []]}),
+                    json!({"reduce": [{"var": "coll"}, {"cat": [{"var": "accumulator"}, {"var": "current"}]}, ""]}),
+                    json!({"reduce": [{"var": "coll"}, {"+": [{"var": "accumulator"}, {"var": "current"}]}, 0]}),
+                    json!({"reduce": [{"var": "coll"}, {"+": [{"var": "current"}, {"var": "accumulator"}]}, 0]}),
+                    json!({"reduce": [{"var": "coll"}, {"max": [{"var": "accumulator"}, {"var": "current"}]}, 0]}),
+                    json!({"reduce": [{"var": "coll"}, {"*": [{"var": "accumulator"}, {"var": "current"}]}, 1]}),
+                    json!({"reduce": [[1, 2], {"merge": [{"var": "accumulator"}, {"var": "current"}]}, {"var": "coll"}]}),
+                    json!({"map": [{"var": "coll"}, {"merge": [{"var": ""}]}]}), json!({"map": [{"var": "coll"}, {"cat": [{"var": ""}]}]}),
+                    json!({"filter": [{"var": "coll"}, {"!!": [{"var": ""}]}]}), json!({"some": [{"var": "coll"}, {"===": [{"var": ""}, "SECRET"]}]}),
                     json!({"in": [0, {"var": "coll"}]}), json!({"missing": {"filter": [{"var": "coll"}, {"===": [{"var": ""}, 1]}]}}),
                     json!({"var": format!("coll.{}", k)}), json!({"var": ["nope", {"var": format!("coll.{}", k)}]}),
                 ] {
